@@ -482,9 +482,21 @@ fn draw_ustr(rng: &mut StdRng, item: &Value, uniq: &mut HashMap<String, HashSet<
             atoms = vec!["ch".to_string(); n];
         }
         let n = atoms.iter().filter(|a| *a == "ch").count();
-        let chars: Vec<char> = (0 .. n)
+        let mut chars: Vec<char> = (0 .. n)
             .map(|_| if enc == "latin1" { latin1_char(rng) } else { ucs2_char(rng) })
             .collect();
+        // Latin-1 text whose bytes happen to be well-formed UTF-8 ("Ã©lite Â® clan"): every high byte is part of a two-byte
+        // sequence - a single-byte string is still a single-byte string
+        if enc == "latin1" && n >= 2 && rng.gen_bool(0.12) {
+            for c in chars.iter_mut() {
+                if (*c as u32) >= 0x80 {
+                    *c = 'a';
+                }
+            }
+            let at = rng.gen_range(0 .. n - 1);
+            chars[at] = ['\u{c3}', '\u{c2}', '\u{c5}', '\u{d0}'][rng.gen_range(0 .. 4)];
+            chars[at + 1] = char::from_u32(rng.gen_range(0xa0u32 ..= 0xbf)).unwrap();
+        }
         let s: String = chars.iter().collect();
         if !check_uniq(item, uniq, &s) {
             continue;
